@@ -35,6 +35,21 @@ def handle' (req : SExp) : SExp :=
       match nixDecodeName n with
       | some t => .list [.atom "some", sText t]
       | none => .list [.atom "none"]
+  | .list [.atom "decname", .atom h] =>
+    match decText h with
+    | none => .list [.atom "bad-arg"]
+    | some n =>
+      match decodeAttrName n with
+      | some t => .list [.atom "some", sText t]
+      | none => .list [.atom "none"]
+  | .list [.atom "samename", .atom h1, .atom h2] =>
+    match decText h1, decText h2 with
+    | some a, some b => .list [.atom "ok", sBool (sameName a b)]
+    | _, _ => .list [.atom "bad-arg"]
+  | .list [.atom "segname", .atom h] =>
+    match decText h with
+    | none => .list [.atom "bad-arg"]
+    | some n => .list [.atom "ok", sText (segmentName n)]
   | .list [.atom "renderseg", .atom h] =>
     match decText h with
     | none => .list [.atom "bad-arg"]
@@ -42,7 +57,7 @@ def handle' (req : SExp) : SExp :=
   | _ => .list [.atom "bad-op"]
 
 
-def ops : List String := ["npath", "fmtname", "escape", "split", "decode", "renderseg"]
+def ops : List String := ["npath", "fmtname", "escape", "split", "decode", "renderseg", "decname", "samename", "segname"]
 
 def handle (req : SExp) : Option SExp :=
   match req with
